@@ -266,32 +266,30 @@ def r_img_addcks(model, rep):
     S = P(cx.selfname)
     t, v = P(cx.params[2]), P(cx.params[3])
     cks = ("attr", S, "checksums")
+    def nc(x):
+        """hex digests compare case-insensitively: a consistent .lower()/.upper() on the values is not a different value"""
+        def fn(y):
+            if y[0] == "call" and y[1][0] == "attr" and y[1][2] in ("lower", "upper") and not y[2] and not y[3]:
+                return y[1][1]
+            return None
+        return T.phi_form(T.subst(x, fn))
     st = [ev for ev in cx.events if ev.kind == "store" and T.root_of(ev.target) == S]
     if len(st) == 1 and st[0].target[0] == "sub" and st[0].target[1] == cks and T.contains(st[0].target[2], lambda x: x == t):
         t = st[0].target[2]      # the key actually used (the type argument, possibly normalised)
     present = ("cmp", ("in",), (t, cks))
-    ok = len(st) == 1 and st[0].target == ("sub", cks, t) and st[0].value == v \
-        and facts.canon_guards(st[0].guards) == frozenset([facts.canon_guard((present, False))])
+    ok = len(st) == 1 and st[0].target == ("sub", cks, t) and nc(st[0].value) == v \
+        and facts.guard_atoms(facts.own_guards(cx, st[0])) <= {facts.canon_guard((present, False))} \
+        and facts.canon_guard((present, False)) in facts.guard_atoms(st[0].guards)
     rep.ob("R-IMG-ADDCKS", "Image.add_checksum:no-overwrite", ok, site=cx.site(f.node),
            msg="" if ok else "a checksum may only be stored when no value of that type is recorded yet")
     rs = [ev for ev in cx.events if ev.kind == "raise" and ev.value[0] == "call" and ev.value[1] == ("global", "ValueError")]
     cur = ("sub", cks, t)
-    conflict = frozenset([facts.canon_guard((present, True)), facts.canon_guard((v, True)), facts.canon_guard((("cmp", ("!=",), (v, cur)), True))])
-
-    def flat(gs):
-        out = set()
-        for g in gs:
-            if g[1] and g[0][0] == "boolop" and g[0][1] == "and":
-                for x in g[0][2]:
-                    out.add(facts.canon_guard((x, True)))
-            else:
-                out.add(facts.canon_guard(g))
-        return frozenset(out)
-    ok = len(rs) == 1 and flat([g for g in rs[0].guards if g[0][0] != "exc"]) == conflict
+    conflict = {facts.canon_guard((present, True)), facts.canon_guard((v, True)), facts.canon_guard((("cmp", ("!=",), (v, cur)), True))}
+    ok = len(rs) == 1 and facts.guard_atoms([(nc(g[0]), g[1]) for g in rs[0].guards]) == conflict
     rep.ob("R-IMG-ADDCKS", "Image.add_checksum:conflict-raises", ok, site=cx.site(f.node),
            msg="" if ok else "a different non-empty value for a recorded checksum type must raise ValueError")
     rets = [ev for ev in cx.events if ev.kind == "return"]
-    ok = len(rets) == 2 and sorted(T.show(r.value) for r in rets) == sorted([T.show(cur), T.show(v)])
+    ok = len(rets) == 2 and sorted(T.show(nc(r.value)) for r in rets) == sorted([T.show(cur), T.show(v)])
     rep.ob("R-IMG-ADDCKS", "Image.add_checksum:returns-recorded-value", ok, site=cx.site(f.node), trivial=True,
            msg="" if ok else "add_checksum must return the recorded value")
 
